@@ -169,5 +169,8 @@ Definition judge_c12 (c : c12case) : verdict :=
   | C12P doc ps impl intact =>
       if negb intact then SpecFail 8                       (* an input was modified, or an error came with a document *)
       else if PatchCases.opt_obj_equiv (apply_patches doc ps) impl then Pass
-      else Mismatch 9
+      else match apply_patches doc ps, impl with
+           | None, Some _ => SpecFail 11                   (* a failing list came back with a document and no error *)
+           | _, _ => Mismatch 9
+           end
   end.
